@@ -2,14 +2,16 @@
 
 spec  : W90Store.tla (file objects as [cls, attr, dic, dim], token layout of .eig/.amn/.mmn with the readers' reshapes and the
         b-vector re-ordering, SavableNPZ.as_dict/from_dict with the key-name scheme of dic_to_keydic/keydic_to_dic, the
-        constructors' checks, WannierData set_file/unset_file/check_conform/to_npz/from_npz), MC_W90Files.tla (one state per
-        file object: all NK 1..3, NB 1..3, NW 1..NB, NNB 2..6, full and partial k-point sets), MC_W90Cont.tla (container state
-        machine, all action sequences up to the bound), W90StoreRec.tla (record validation)
-bind  : every state of MC_W90Files is executed on the real classes in a scratch directory (to_w90_file tokens vs the
-        specification's table, from_w90_file on the rendered table, to_npz names and from_npz result, the class's own
-        equals()); every behaviour of MC_W90Cont is executed on a real WannierData, the container and the npz files on disk
-        compared after every step; seeded random objects are written/read/saved/loaded by the real code and the records
-        validated by TLC.
+        constructors' checks, WannierData set_file/unset_file/check_conform/to_npz/from_npz/write), MC_W90Files.tla (one state
+        per file object: all NK 1..3, NB 1..3, NW 1..NB, several NNB, full and partial k-point sets, optional tags),
+        MC_W90Cont.tla (container state machine, all action sequences up to the bound), W90StoreRec.tla (record validation)
+bind  : every state of MC_W90Files is executed on the real classes in a scratch directory (to_w90_file -> from_w90_file on the
+        real file, from_w90_file on the specification's table rendered in the Wannier90 layout, to_npz -> from_npz, the class's
+        own equals()); behaviours of MC_W90Cont are executed on a real WannierData: what the statement names (a container saved
+        to .npz and loaded back holds equal files; write() leaves files the matching reader turns back into the data) decides,
+        the rest of the container semantics is followed as long as the real code agrees with the model and reported as
+        information where it does not; seeded random objects are written/read/saved/loaded by the real code and the records
+        validated by TLC; seeded random non-dyadic data are compared at the precision of the formats.
 """
 import os
 import copy
@@ -18,28 +20,66 @@ import shutil
 import numpy as np
 
 from .. import tlc, ftable
-from ..common import Report, MachineryError, seed, quiet, workdir
+from ..common import Report, MachineryError, seed, quiet, workdir, WORK
 
 PROPS = {
     "C19": dict(level="model_checking",
-                technique="TLC exhaustive on W90Store.tla (MC_W90Files: every small file object; MC_W90Cont: WannierData state machine over all action sequences up to the bound) + replay of every TLC state/behaviour on the real w90files classes and files + TLC validation of recorded real calls",
-                text="TLC checks TextRoundTrip / NpzRoundTrip / NpzKeys on every file object with NK 1..3, NB 1..3, NW 1..NB, NNB 2..6 "
-                     "(full and irreducible k-point sets, re-ordered b-vectors) and ContRoundTrip / ContConsistent / ChkFollowsAmn / "
-                     "WriteReadable on every sequence of container actions inside the bound; each state is executed on the real EIG, AMN, "
-                     "MMN, BKVectors, CheckPoint, SPN, UHU, UIU, SHU, SIU and WannierData with exact comparison of file tokens, npz entry "
-                     "names, reloaded tables and container contents; random objects are recorded through the real writers/readers/npz "
-                     "and every clause of W90StoreRec is evaluated by TLC.",
-                note="data are multiples of 1/8 (exactly printable); digit-level encode/decode fidelity beyond exactly printable values is "
-                     "exercised, not specified; `compares equal` = the class's equals() where it works (W90_file subclasses with data), "
-                     "structural comparison of the projections otherwise (BKVectors, CheckPoint); UNK, SOC, WIN and the symmetrizer are not modelled",
+                technique="TLC exhaustive on W90Store.tla (MC_W90Files: every small file object; MC_W90Cont: WannierData state machine over all action sequences up to the bound) + replay of every TLC file-object state and of the container behaviours (every behaviour that saves or loads plus a seeded sample of the others) on the real w90files classes and files + TLC validation of recorded real calls",
+                text="TLC checks TextRoundTrip / NpzRoundTrip / NpzKeys on every file object with NK 1..3, NB 1..3, NW 1..NB, several NNB in 2..6 "
+                     "(full and irreducible k-point sets, bk_reorder tables, .amn with the optional projection tags, checkpoint with "
+                     "selected_bands) and ContRoundTrip / ContConsistent / ChkFollowsAmn / WriteReadable on every sequence of container "
+                     "actions inside the bound (set_file, unset_file, to_npz with and without a file list, from_npz, write of one file "
+                     "and of all files; pool with eig, amn, mmn, chk, uHu/uIu/sHu/sIu, spn); each file-object state is executed on the "
+                     "real EIG, AMN, MMN, BKVectors, CheckPoint, SPN, UHU, UIU, SHU, SIU: the file written by the real writer is read "
+                     "by the real reader, the specification's table (Wannier90 layout) is read by the real reader, the object goes through "
+                     "to_npz/from_npz, and what comes back is compared exactly with what went in (and with the class's equals()); "
+                     "container behaviours are executed on a real WannierData; random objects are recorded through the real "
+                     "writers/readers/npz (.mmn files with the neighbours of every k-point in a permuted order) and the C19 clauses of "
+                     "W90StoreRec are evaluated by TLC; non-dyadic data are compared at the precision of the formats. On the real code "
+                     "the .mmn WRITER cannot be exercised (known finding MMN.to_w90_file:exception): for .mmn only the reader (rendered "
+                     "tables, permuted neighbour order) and the npz path are bound to the code.",
+                note="the exact part uses multiples of 1/8 (exactly printable); printed precision is decided by the numeric part "
+                     "`precision` (.eig/.amn: %17.12f, absolute 1e-11 = 20 x the half-ulp of the format; npz: bit-exact); "
+                     "`compares equal` = the class's equals() where it exists (W90_file subclasses with data) together with the exact "
+                     "comparison of the projections (BKVectors, CheckPoint: projections only); names of the entries inside the .npz "
+                     "files, tokens of the written text files, exception classes, and the container semantics beyond the save/load "
+                     "round trip (what set_file/unset_file refuse, the state after a refused set_file, chk.num_wann following amn, the "
+                     "irreducible flag) are information (parts `information`, `model_conformance`), not violations; UNK, SOC, WIN and "
+                     "the symmetrizer are not modelled",
                 ref="DESIGN.md 3.7"),
 }
 
 ASIS = dict(WriterIndexing='"tuple"', MmnWriterBkvec="FALSE", LoadtxtSqueeze="TRUE")
 FIXED = dict(WriterIndexing='"nested"', MmnWriterBkvec="TRUE", LoadtxtSqueeze="FALSE")
 
-INT_TAGS = {"NK", "num_wann", "num_bands", "num_kpts", "bk_grid", "kpt_grid", "kptirr", "mp_grid", "bk_reorder", "neighbours", "G"}
-F8_TAGS = {"wk", "recip_lattice", "real_lattice", "wannier_centers_cart", "wannier_spreads"}
+# the tag tables of W90Store.tla (Tags, TagsOpt, DictTags, DictTagsOpt, DimsOf): the projection reads exactly these, so that a
+# tag the package adds later does not change what is compared
+_PLAIN = (["NK"], [], ["data"], [])
+SPEC_TAGS = {
+    "eig": _PLAIN, "spn": _PLAIN, "uhu": _PLAIN, "uiu": _PLAIN, "shu": _PLAIN, "siu": _PLAIN,
+    "amn": (["NK"], ["positions", "orbitals", "radial_nodes_list", "basis_list", "spread_list", "spinor"], ["data"], []),
+    "mmn": (["NK"], [], ["data", "bk_reorder"], []),
+    "bkvec": (["bk_grid", "wk", "kpt_grid", "kptirr", "mp_grid", "recip_lattice"], [], ["neighbours", "G"], []),
+    "chk": (["mp_grid", "real_lattice", "num_wann", "num_bands", "num_kpts", "kpt_red"],
+            ["wannier_centers_cart", "wannier_spreads", "selected_bands"], [], ["v_matrix"]),
+}
+SPEC_DIMS = {"eig": ["NB"], "amn": ["NB", "NW"], "mmn": ["NNB", "NB"], "spn": ["NB"], "uhu": ["NNB", "NB"], "uiu": ["NNB", "NB"],
+             "shu": ["NNB", "NB"], "siu": ["NNB", "NB"], "bkvec": ["NNB"], "chk": []}
+INT_TAGS = {"NK", "num_wann", "num_bands", "num_kpts", "bk_grid", "kpt_grid", "kptirr", "mp_grid", "bk_reorder", "neighbours", "G",
+            "radial_nodes_list", "selected_bands"}
+F8_TAGS = {"wk", "recip_lattice", "real_lattice", "wannier_centers_cart", "wannier_spreads", "positions", "basis_list", "spread_list"}
+CONT_KEYS = ["eig", "amn", "mmn", "bkvec", "chk", "spn", "uhu", "uiu", "shu", "siu"]
+INFO_CLAUSES = {"layout", "reader_model", "names", "from_dict", "failure_expected"}
+SKIPPED = {}
+
+
+def skipped_private(what, why):
+    SKIPPED[what] = str(why)[:160]
+
+
+def cpu():
+    t = os.times()
+    return t.user + t.system + t.children_user + t.children_system
 
 
 # --------------------------------------------------------------------------- conversions
@@ -78,15 +118,26 @@ def carr(t):
     return a[..., 0] + 1j * a[..., 1]
 
 
+_CLASSES = {}
+
+
 def classes():
-    from wannierberri.w90files.eig import EIG
-    from wannierberri.w90files.amn import AMN
-    from wannierberri.w90files.mmn import MMN
-    from wannierberri.w90files.bkvectors import BKVectors
-    from wannierberri.w90files.chk import CheckPoint
-    from wannierberri.w90files.spn import SPN
-    from wannierberri.w90files.xxu import UHU, UIU, SHU, SIU
-    return dict(eig=EIG, amn=AMN, mmn=MMN, bkvec=BKVectors, chk=CheckPoint, spn=SPN, uhu=UHU, uiu=UIU, shu=SHU, siu=SIU)
+    if _CLASSES:
+        return _CLASSES
+    import importlib
+    pkg = importlib.import_module("wannierberri.w90files")
+    where = dict(eig=("EIG", "eig"), amn=("AMN", "amn"), mmn=("MMN", "mmn"), bkvec=("BKVectors", "bkvectors"), chk=("CheckPoint", "chk"),
+                 spn=("SPN", "spn"), uhu=("UHU", "xxu"), uiu=("UIU", "xxu"), shu=("SHU", "xxu"), siu=("SIU", "xxu"))
+    for k, (name, mod) in where.items():
+        C = getattr(pkg, name, None)
+        if C is None:
+            try:
+                C = getattr(importlib.import_module("wannierberri.w90files." + mod), name)
+            except (ImportError, AttributeError):
+                # last resort: the table WannierData itself uses
+                C = importlib.import_module("wannierberri.w90files.wandata").FILES_CLASSES[k]
+        _CLASSES[k] = C
+    return _CLASSES
 
 
 def build(o):
@@ -113,27 +164,39 @@ def build(o):
                 kw["wannier_centers_cart"] = np.array(a["wannier_centers_cart"], dtype=float) / 8
             if "wannier_spreads" in a:
                 kw["wannier_spreads"] = np.array(a["wannier_spreads"], dtype=float) / 8
+            if "selected_bands" in a:
+                kw["selected_bands"] = np.array(a["selected_bands"], dtype=int)
             if "v_matrix" in d:
                 kw["v_matrix"] = {k: carr(v) for k, v in d["v_matrix"].items()}
             return C[cls](**kw)
-        return C[cls](data={k: carr(v) for k, v in d["data"].items()}, NK=a["NK"])
+        kw = {}
+        if cls == "amn" and "orbitals" in a:
+            # what AMN.from_bandstructure stores: arrays for positions/orbitals/radial nodes/basis, a list of floats for the spreads
+            kw = dict(positions=np.array(a["positions"], dtype=float) / 8, orbitals=np.array(a["orbitals"]),
+                      radial_nodes_list=np.array(a["radial_nodes_list"], dtype=int), basis_list=np.array(a["basis_list"], dtype=float) / 8,
+                      spread_list=[x / 8 for x in a["spread_list"]], spinor=bool(a["spinor"]))
+        return C[cls](data={k: carr(v) for k, v in d["data"].items()}, NK=a["NK"], **kw)
 
 
 def project(x, cls):
-    """real file object -> canonical object"""
-    C = classes()[cls]
+    """real file object -> canonical object (the tags of the specification's tables only)"""
+    tags, tags_opt, dtags, dtags_opt = SPEC_TAGS[cls]
     attr, dic, dim = {}, {}, {}
-    for t in list(C.npz_tags) + list(C.npz_tags_optional):
+    for t in tags + tags_opt:
         v = getattr(x, t, None)
         if v is None:
             continue
         if t == "kpt_red":
             attr[t] = ints(np.asarray(v) * np.asarray(x.mp_grid)[None, :], t)
+        elif t == "orbitals":
+            attr[t] = [str(s) for s in np.asarray(v).tolist()]
+        elif t == "spinor":
+            attr[t] = bool(v)
         elif t in F8_TAGS:
             attr[t] = f8(v, t)
         else:
             attr[t] = ints(v, t) if np.ndim(v) else int(v)
-    for t in list(C.npz_keys_dict_int) + list(C.npz_keys_dict_int_optional):
+    for t in dtags + dtags_opt:
         v = getattr(x, t, None)
         if v is None:
             continue
@@ -143,13 +206,24 @@ def project(x, cls):
             dic[t] = {int(k): f8(w, t) for k, w in v.items()}
         else:
             dic[t] = {int(k): c8(w, t) for k, w in v.items()}
-    for n in ("NB", "NW", "NNB"):
-        if n in vars(x):
-            dim[n] = int(getattr(x, n))
-    dim["NK"] = int(x.NK)
-    if cls == "bkvec":
-        dim = dict(NK=int(x.NK), NNB=int(x.NNB))
+    for n in SPEC_DIMS[cls]:
+        v = getattr(x, n, None)
+        if v is not None:
+            dim[n] = int(v)
+    nk = getattr(x, "NK", None)
+    if nk is None:
+        nk = getattr(x, "num_kpts", None)
+    dim["NK"] = int(nk)
     return dict(cls=cls, attr=attr, dic=dic, dim=dim)
+
+
+def try_project(x, cls):
+    """-> (projection, None) or (None, problem): numbers that are not multiples of 1/8 any more are a finding about the
+    code that produced the object, not a failure of the harness"""
+    try:
+        return project(x, cls), None
+    except ValueError as ex:
+        return None, str(ex)[:160]
 
 
 def seg(name):
@@ -177,6 +251,13 @@ def tokens(path, ncomment):
     return out
 
 
+def try_tokens(path, ncomment):
+    try:
+        return tokens(path, ncomment)
+    except (ValueError, OSError):
+        return None
+
+
 def render(cls, lines, seedpath):
     """token table of the specification -> text file in the layout Wannier90 uses"""
     with open(seedpath + "." + cls, "w") as f:
@@ -202,15 +283,14 @@ def call(fn, *a, **kw):
     try:
         with quiet():
             return fn(*a, **kw), None
-    except Exception as ex:
+    except Exception as ex:     # any exception of the library is an answer; its class is information
         return None, type(ex).__name__ + ": " + str(ex)[:160]
 
 
 class InProcessPool:
     """stands in for multiprocessing.Pool inside the .amn/.mmn readers (they only use map/close/join): the text conversion
-    runs in this process instead of forked workers, everything else is the unmodified reader.  The first calls of every
-    class go through the real Pool."""
-    real_calls = {}
+    runs in this process instead of forked workers, everything else is the unmodified reader.  Forking from a process that
+    has imported numba/ray under a loaded machine can hang; the reading logic is the same."""
 
     def __init__(self, *a, **kw):
         pass
@@ -218,29 +298,57 @@ class InProcessPool:
     def map(self, fn, it):
         return [fn(x) for x in it]
 
+    def imap(self, fn, it):
+        return (fn(x) for x in it)
+
     def close(self):
         pass
 
     def join(self):
         pass
 
+    def terminate(self):
+        pass
+
+    def __enter__(self):
+        return self
+
+    def __exit__(self, *a):
+        return False
+
+
+class serial_pools:
+    """patches multiprocessing.Pool (and a `Pool` name the reader modules may have imported) for the duration of a read"""
+
+    def __enter__(self):
+        import multiprocessing
+        import importlib
+        self.saved = [(multiprocessing, "Pool", multiprocessing.Pool)]
+        multiprocessing.Pool = InProcessPool
+        for m in ("amn", "mmn", "utility"):
+            try:
+                mod = importlib.import_module("wannierberri.w90files." + m)
+            except ImportError:
+                continue
+            if hasattr(mod, "Pool"):
+                self.saved.append((mod, "Pool", mod.Pool))
+                mod.Pool = InProcessPool
+        return self
+
+    def __exit__(self, *a):
+        for mod, name, val in self.saved:
+            setattr(mod, name, val)
+        return False
+
 
 def real_read(cls, seedpath, bk=None):
-    import multiprocessing
     C = classes()[cls]
-    if cls == "eig":
-        return call(C.from_w90_file, seedpath)
-    n = InProcessPool.real_calls.get(cls, 0)
-    InProcessPool.real_calls[cls] = n + 1
-    saved = multiprocessing.Pool
-    if n >= 3:
-        multiprocessing.Pool = InProcessPool
-    try:
+    with serial_pools():
+        if cls == "eig":
+            return call(C.from_w90_file, seedpath)
         if cls == "amn":
             return call(C.from_w90_file, seedpath, npar=1)
         return call(C.from_w90_file, seedpath, bkvec=bk, npar=1)
-    finally:
-        multiprocessing.Pool = saved
 
 
 def call_writer(x, seedpath, bk=None):
@@ -248,9 +356,15 @@ def call_writer(x, seedpath, bk=None):
     import inspect
     kw = {}
     try:
-        for name in inspect.signature(x.to_w90_file).parameters:
-            if name in ("bkvec", "bkvectors", "bkvecs", "bk") and bk is not None:
-                kw[name] = bk
+        pars = list(inspect.signature(x.to_w90_file).parameters.values())
+        for p in pars[1:]:
+            if bk is None:
+                break
+            if p.name in ("bkvec", "bkvectors", "bkvecs", "bk") or (p.default is inspect.Parameter.empty and p.kind in (p.POSITIONAL_ONLY, p.POSITIONAL_OR_KEYWORD)):
+                if p.kind == p.POSITIONAL_ONLY:
+                    return call(x.to_w90_file, seedpath, bk)
+                kw[p.name] = bk
+                break
     except (TypeError, ValueError):
         pass
     return call(x.to_w90_file, seedpath, **kw)
@@ -258,23 +372,22 @@ def call_writer(x, seedpath, bk=None):
 
 def own_equals(cls, a, b):
     """the class's own equals() where it is usable, else None"""
-    if cls in ("bkvec", "chk"):
+    if cls in ("bkvec", "chk") or not hasattr(a, "equals"):
         return None
     r, ex = call(a.equals, b)
     if ex:
         return "exception: " + ex
-    return bool(r[0])
+    if isinstance(r, (tuple, list)):
+        r = r[0]
+    return bool(r)
 
 
 def with_workaround(cls, x, bk):
-    """a copy on which the writer's missing pieces are supplied from outside (observation only): array data for EIG/AMN,
-    neighbours and G of the b-vector table for MMN"""
+    """a copy on which the writer's missing pieces are supplied from outside (observation only): neighbours and G of the
+    b-vector table for MMN"""
     y = copy.copy(x)
-    if cls in ("eig", "amn"):
-        y.data = np.array([x.data[k] for k in range(x.NK)])
-    else:
-        y.neighbours = np.array([bk.neighbours[k] for k in range(x.NK)])
-        y.G = np.array([bk.G[k] for k in range(x.NK)])
+    y.neighbours = np.array([bk.neighbours[k] for k in range(x.NK)])
+    y.G = np.array([bk.G[k] for k in range(x.NK)])
     return y
 
 
@@ -285,22 +398,36 @@ def excname(ex):
 class FileReplay:
     def __init__(self, rep, wd):
         self.rep, self.wd, self.n = rep, wd, 0
-        self.obs = dict(writer_layout_agrees_when_patched=0, writer_layout_differs_when_patched=0, patched_writer_failed=0)
+        self.obs = {}
         self.count = {}
+
+    def note(self, k):
+        self.obs[k] = self.obs.get(k, 0) + 1
 
     def one(self, s):
         self.n += 1
+        d = os.path.join(self.wd, f"f{self.n}")
+        os.makedirs(d, exist_ok=True)
+        try:
+            self._one(s, d)
+        finally:
+            shutil.rmtree(d, ignore_errors=True)
+
+    def _one(self, s, d):
         o = canon(s["obj"])
         cls = o["cls"]
         par = s["par"]
         info = dict(cls=cls, NK=par[1], NB=par[2], NW=par[3], NNB=par[4], partial_k=par[5], pattern=par[6], flag=par[7])
         self.count[cls] = self.count.get(cls, 0) + 1
-        d = os.path.join(self.wd, f"f{self.n}")
-        os.makedirs(d, exist_ok=True)
-        x = build(o)
-        p0 = project(x, cls)
+        x, ex = call(build, o)
+        if ex is not None:
+            self.rep.violation(f"{cls}.__init__:exception", dict(info, exception=ex, what="the constructor refuses a well-formed object"))
+            return
+        p0, prob = try_project(x, cls)
         if p0 != o:
-            raise MachineryError(f"harness cannot build the specification's object {info}: {[k for k in o if o[k] != p0[k]]}")
+            # the object the constructor made is not the one asked for (or keeps it in other attributes): nothing to compare with
+            self.note(f"{cls}:cannot_build_the_specification_object")
+            return
         bk = build(canon(s["bk"])) if cls == "mmn" else None
         # ---- text
         if cls in NCOMMENT:
@@ -310,78 +437,95 @@ class FileReplay:
             if exp["err"] == "":
                 lines = L(exp["lines"])
                 if ex is not None:
-                    self.rep.violation(f"{cls.upper()}.to_w90_file:{excname(ex)}",
+                    self.rep.violation(f"{cls.upper()}.to_w90_file:exception",
                                        dict(info, call=f"{cls.upper()}(data=..., NK={par[1]}).to_w90_file(seedname)", exception=ex,
                                             expected="a file from which from_w90_file recovers the data"))
-                    # observation: does the rest of the writer agree with the specification's layout?
-                    try:
-                        y = with_workaround(cls, x, bk)
-                        _, ex2 = call(y.to_w90_file, seedw + "p")
-                        if ex2:
-                            self.obs["patched_writer_failed"] += 1
-                        elif tokens(seedw + "p." + cls, NCOMMENT[cls]) == lines:
-                            self.obs["writer_layout_agrees_when_patched"] += 1
-                        else:
-                            self.obs["writer_layout_differs_when_patched"] += 1
-                    except Exception:
-                        self.obs["patched_writer_failed"] += 1
+                    if cls == "mmn":
+                        # observation: does the rest of the writer agree with the specification's layout?
+                        try:
+                            y = with_workaround(cls, x, bk)
+                            _, ex2 = call(y.to_w90_file, seedw + "p")
+                            if ex2:
+                                self.note("mmn_writer_patched:failed")
+                            elif try_tokens(seedw + "p." + cls, NCOMMENT[cls]) == lines:
+                                self.note("mmn_writer_patched:layout_as_modelled")
+                                yy, exr = real_read(cls, seedw + "p", bk)
+                                pp = try_project(yy, cls)[0] if exr is None else None
+                                self.note("mmn_writer_patched:read_back_" + ("equal" if pp is not None and pp["dic"]["data"] == p0["dic"]["data"] else "differs"))
+                            else:
+                                self.note("mmn_writer_patched:layout_differs")
+                        except Exception:
+                            self.note("mmn_writer_patched:failed")
                 else:
-                    got = tokens(seedw + "." + cls, NCOMMENT[cls])
-                    if got != lines:
-                        self.rep.violation(f"{cls.upper()}.to_w90_file:file_tokens", dict(info, expected_first=lines[:8], got_first=got[:8]))
-                    y, exr = real_read(cls, seedw, bk)          # the real file through the real reader
-                    if exr is None and project(y, cls) != canon(s["rd"]["obj"]):
-                        self.rep.violation(f"{cls.upper()}.from_w90_file:roundtrip", dict(info, what="reader output differs from what was written"))
-                # the specification's table through the real reader
+                    got = try_tokens(seedw + "." + cls, NCOMMENT[cls])
+                    self.note(f"{cls}.to_w90_file:tokens_as_modelled" if got == lines else f"{cls}.to_w90_file:tokens_differ_from_model")
+                    # the statement: the real file through the real reader gives the data back
+                    y, exr = real_read(cls, seedw, bk)
+                    if exr is not None:
+                        self.rep.violation(f"{cls.upper()}.from_w90_file:exception", dict(info, exception=exr, file="written by to_w90_file"))
+                    else:
+                        gp, prob = try_project(y, cls)
+                        if gp is None or gp["dic"]["data"] != p0["dic"]["data"] or gp["dim"] != p0["dim"]:
+                            self.rep.violation(f"{cls.upper()}.from_w90_file:roundtrip",
+                                               dict(info, what="reader output differs from what was written", problem=prob,
+                                                    expected_dim=p0["dim"], got_dim=None if gp is None else gp["dim"]))
+                # the specification's table (Wannier90 layout) through the real reader
                 seedr = os.path.join(d, "r")
                 render(cls, lines, seedr)
                 y, exr = real_read(cls, seedr, bk)
                 if s["rd"]["err"] != "":
                     raise MachineryError(f"specification reader failed on its own table {info}")
                 if exr is not None:
-                    sub = ":single_value_file" if cls == "eig" and par[1] * par[2] == 1 else ""
-                    self.rep.violation(f"{cls.upper()}.from_w90_file:{excname(exr)}{sub}",
-                                       dict(info, file_lines=[" ".join(str(t) for t in l) for l in lines[:6]], exception=exr,
+                    self.rep.violation(f"{cls.upper()}.from_w90_file:exception",
+                                       dict(info, file="rendered from the specification's table (Wannier90 layout)",
+                                            file_lines=[" ".join(str(t) for t in l) for l in lines[:6]], exception=exr,
                                             note="tokens are in units of 1/8 for real numbers"))
                 else:
-                    gp = project(y, cls)
+                    gp, prob = try_project(y, cls)
                     ep = canon(s["rd"]["obj"])
-                    if gp != ep:
-                        self.rep.violation(f"{cls.upper()}.from_w90_file:projection",
-                                           dict(info, differing=[k for k in ep if ep[k] != gp[k]], expected_dim=ep["dim"], got_dim=gp["dim"]))
+                    if gp is None or gp["dic"] != ep["dic"] or gp["dim"] != ep["dim"]:
+                        self.rep.violation(f"{cls.upper()}.from_w90_file:rendered_w90_file",
+                                           dict(info, problem=prob, differing=[] if gp is None else [k for k in ("dic", "dim") if ep[k] != gp[k]],
+                                                expected_dim=ep["dim"], got_dim=None if gp is None else gp["dim"]))
             elif ex is None:
                 # writing an object that lacks k-points is outside the statement; what the code does is only counted
-                self.obs["partial_k_object_written_without_error"] = self.obs.get("partial_k_object_written_without_error", 0) + 1
+                self.note(f"{cls}:partial_k_object_written_without_error")
         # ---- npz
         path = os.path.join(d, f"x.{cls}.npz")
         _, ex = call(x.to_npz, path)
         if ex is not None:
-            self.rep.violation(f"{cls}.to_npz:{excname(ex)}", dict(info, exception=ex))
-        else:
+            self.rep.violation(f"{cls}.to_npz:exception", dict(info, exception=ex))
+            return
+        try:
             names = {seg(n) for n in np.load(path).files}
             expn = {tuple(k) for k in dict(s["npz"]).keys()}
-            if names != expn:
-                self.rep.violation(f"{cls}.to_npz:entry_names", dict(info, expected=sorted(expn), got=sorted(names)))
-            y, ex = call(classes()[cls].from_npz, path)
-            if ex is not None:
-                self.rep.violation(f"{cls}.from_npz:{excname(ex)}", dict(info, exception=ex))
-            else:
-                gp = project(y, cls)
-                ep = canon(s["back"]["obj"])
-                if gp != ep:
-                    self.rep.violation(f"{cls}.from_npz:projection", dict(info, differing=[k for k in ep if ep[k] != gp[k]]))
-                eq = own_equals(cls, x, y)
-                if eq is not None and eq is not True:
-                    self.rep.violation(f"{cls}.from_npz:equals", dict(info, equals_returned=eq))
-        shutil.rmtree(d, ignore_errors=True)
+            self.note(f"{cls}.to_npz:entry_names_as_modelled" if names == expn else f"{cls}.to_npz:entry_names_differ_from_model")
+        except Exception:
+            self.note(f"{cls}.to_npz:not_a_plain_npz")
+        y, ex = call(classes()[cls].from_npz, path)
+        if ex is not None:
+            self.rep.violation(f"{cls}.from_npz:exception", dict(info, exception=ex))
+            return
+        gp, prob = try_project(y, cls)
+        if gp != p0:
+            self.rep.violation(f"{cls}.from_npz:projection", dict(info, problem=prob, differing=[] if gp is None else [k for k in p0 if p0[k] != gp[k]]))
+        eq = own_equals(cls, x, y)
+        if eq is not None and eq is not True:
+            self.rep.violation(f"{cls}.from_npz:equals", dict(info, equals_returned=eq))
 
 
 # --------------------------------------------------------------------------- container
+def files_of(w):
+    """{key: file object} of a WannierData (guarded adapter around the private dictionary)"""
+    d = getattr(w, "_files", None)
+    if isinstance(d, dict):
+        return dict(d)
+    skipped_private("WannierData._files", "attribute gone; files enumerated through has_file/get_file")
+    return {k: w.get_file(k) for k in CONT_KEYS if w.has_file(k)}
+
+
 def cont_project(w):
-    out = {}
-    for k, v in w._files.items():
-        out[k] = project(v, k)
-    return out
+    return {k: project(v, k) for k, v in files_of(w).items() if k in SPEC_TAGS}
 
 
 def cont_canon(c):
@@ -390,7 +534,6 @@ def cont_canon(c):
 
 PRESET_IDS = {"0": [], "1": ["chk", "eig", "amn", "mmn", "bkvec"], "2": ["eigP", "bkvec"],
               "3": ["chk", "eig", "amn", "mmn", "bkvec"], "4": ["eigP", "bkvec"]}
-EXT = dict(uhu="uHu", uiu="uIu", shu="sHu", siu="sIu")
 
 
 def disk_names(seedpath):
@@ -400,7 +543,10 @@ def disk_names(seedpath):
     for f in os.listdir(d):
         if f.startswith(base + ".") and f.endswith(".npz"):
             ext = f[len(base) + 1:-4]
-            out[ext.lower()] = {seg(n) for n in np.load(os.path.join(d, f)).files}
+            try:
+                out[ext.lower()] = {seg(n) for n in np.load(os.path.join(d, f)).files}
+            except Exception:
+                out[ext.lower()] = None
     return out
 
 
@@ -408,115 +554,165 @@ class ContReplay:
     def __init__(self, rep, wd, states):
         self.rep, self.wd, self.n = rep, wd, 0
         self.states = states            # hist key -> parsed state
-        self.pool = {}
         self.ops = {}
+        self.info = {}
+
+    def note(self, k):
+        self.info[k] = self.info.get(k, 0) + 1
 
     @staticmethod
     def hkey(hist):
         return tuple((e["op"], e["key"], e["id"], e["flag"]) for e in hist)
 
-    def obj(self, spec_obj):
-        return build(canon(spec_obj))
-
     def replay(self, s, pool_objs):
-        from wannierberri.w90files.wandata import WannierData
         self.n += 1
         d = os.path.join(self.wd, f"c{self.n}")
         os.makedirs(d, exist_ok=True)
+        try:
+            return self._replay(s, pool_objs, d)
+        finally:
+            shutil.rmtree(d, ignore_errors=True)
+
+    def _replay(self, s, pool_objs, d):
+        import warnings
+        from wannierberri.w90files.wandata import WannierData
         seedn = os.path.join(d, "wd")
         hist = s["hist"]
         info = dict(preset=hist[0]["id"], ops=[dict(op=e["op"], key=e["key"], id=e["id"], flag=e["flag"]) for e in hist[1:]])
         w = WannierData()
         s0 = self.states[self.hkey(hist[:1])]
+        saved = {}                      # key -> projection of the file as it was when the real code saved it last
         for k in PRESET_IDS[hist[0]["id"]]:
-            with quiet():
-                w.set_file(pool_objs[k]["cls"], build(pool_objs[k]))
+            _, ex = call(w.set_file, pool_objs[k]["cls"], build(pool_objs[k]))
+            if ex:
+                self.rep.violation("WannierData.set_file:exception", dict(info, step=0, file=k, exception=ex, what="a conforming file is refused"))
+                return False
         if hist[0]["id"] in ("3", "4"):
-            with quiet():
-                w.to_npz(seedn)
-        if cont_project(w) != cont_canon(s0["cont"]) or \
-                disk_names(seedn) != {k: {tuple(x) for x in dict(v).keys()} for k, v in dict(s0["disk"]).items()}:
-            raise MachineryError(f"harness cannot build the preset container {hist[0]['id']}")
+            _, ex = call(w.to_npz, seedn)
+            if ex:
+                self.rep.violation("WannierData.to_npz:exception", dict(info, step=0, exception=ex))
+                return False
+            saved = cont_project(w)
+        following = cont_project(w) == cont_canon(s0["cont"])
+        if not following:
+            self.note("preset_container_differs_from_model")
         ok = True
-        loaded = None
         for n, e in enumerate(hist[1:], start=2):
             st = self.states[self.hkey(hist[:n])]
             op = e["op"]
             self.ops[op] = self.ops.get(op, 0) + 1
-            if op == "set_file":
-                import warnings
+            step = n - 1
+            if op in ("set_file", "unset_file"):
                 with warnings.catch_warnings():
                     warnings.simplefilter("ignore")
-                    _, ex = call(w.set_file, e["key"], build(pool_objs[e["id"]]), overwrite=e["flag"])
-            elif op == "unset_file":
-                _, ex = call(w.unset_file, e["key"], ignore_missing=e["flag"])
-            elif op == "to_npz":
-                _, ex = call(w.to_npz, seedn)
-            elif op == "from_npz":
-                import warnings
-                with warnings.catch_warnings():
-                    warnings.simplefilter("ignore")
-                    loaded, ex = call(WannierData.from_npz, seedn)
-            else:
-                _, ex = call(w.write, seedn, files=[e["key"]])
-            site = f"WannierData.{op}"
-            if (ex is None) != (e["err"] == ""):
-                if op == "write" and ex is not None:
-                    site = f"{e['key'].upper()}.to_w90_file"
-                    self.rep.violation(f"{site}:{excname(ex)}", dict(info, step=n - 1, via="WannierData.write", exception=ex))
-                else:
-                    self.rep.violation(f"{site}:{'exception:' + excname(ex) if ex else 'unexpected_success'}",
-                                       dict(info, step=n - 1, expected_error=e["err"], got=ex))
-                ok = False
-                break
-            if ex is not None and not ex.startswith(e["err"]):
-                self.rep.violation(f"{site}:other_exception", dict(info, step=n - 1, expected_error=e["err"], got=ex))
-                ok = False
-                break
-            # state after the step
+                    if op == "set_file":
+                        _, ex = call(w.set_file, e["key"], build(pool_objs[e["id"]]), overwrite=e["flag"])
+                    else:
+                        _, ex = call(w.unset_file, e["key"], ignore_missing=e["flag"])
+                # what the container accepts or refuses is not part of the statement: followed while the code agrees with the model
+                if following:
+                    try:
+                        same = cont_project(w) == cont_canon(st["cont"])
+                    except ValueError:
+                        same = False
+                    if (ex is None) != (e["err"] == ""):
+                        self.note(f"WannierData.{op}:" + ("refuses_where_the_model_accepts" if ex else "accepts_where_the_model_refuses"))
+                        following = False
+                    elif not same:
+                        self.note(f"WannierData.{op}:container_differs_from_model")
+                        following = False
+                    elif ex is not None and not ex.startswith(e["err"]):
+                        self.note(f"WannierData.{op}:other_exception_class:" + excname(ex))
+                continue
             try:
-                gp = cont_project(w)
+                cur = cont_project(w)
             except ValueError as ve:
-                self.rep.violation(f"{site}:projection", dict(info, step=n - 1, problem=str(ve)))
-                ok = False
-                break
-            if gp != cont_canon(st["cont"]):
-                ep = cont_canon(st["cont"])
-                self.rep.violation(f"{site}:container", dict(info, step=n - 1, expected_keys=sorted(ep), got_keys=sorted(gp),
-                                                             differing=[k for k in ep if k in gp and ep[k] != gp[k]]))
-                ok = False
-                break
+                self.rep.violation(f"WannierData.{op}:projection", dict(info, step=step, problem=str(ve)))
+                return False
             if op == "to_npz":
-                names = disk_names(seedn)
-                expn = {k: {tuple(x) for x in dict(v).keys()} for k, v in dict(st["disk"]).items()}
-                if names != expn:
-                    self.rep.violation(f"{site}:files_on_disk", dict(info, step=n - 1, expected=sorted(expn), got=sorted(names)))
+                if not cur:
+                    continue
+                only = e["key"] != ""
+                if only and e["key"] not in cur:
+                    continue                        # (the real container diverged from the model: nothing to save)
+                _, ex = call(w.to_npz, seedn, **(dict(files=[e["key"]]) if only else {}))
+                if ex is not None:
+                    self.rep.violation("WannierData.to_npz:exception", dict(info, step=step, exception=ex))
+                    return False
+                for k in ([e["key"]] if only else list(cur)):
+                    saved[k] = cur[k]
+                if following:
+                    names = disk_names(seedn)
+                    expn = {k: {tuple(x) for x in dict(v).keys()} for k, v in dict(st["disk"]).items()}
+                    self.note("WannierData.to_npz:files_on_disk_as_modelled" if names == expn else "WannierData.to_npz:files_on_disk_differ_from_model")
+            elif op == "from_npz":
+                if not saved:
+                    continue
+                with warnings.catch_warnings():
+                    warnings.simplefilter("ignore")
+                    with serial_pools():
+                        loaded, ex = call(WannierData.from_npz, seedn)
+                # the statement: when the files on disk are exactly the files of the container (as the real code saved them),
+                # loading gives a container with equal files
+                exact = set(saved) == set(cur) and all(saved[k] == cur[k] for k in cur)
+                if following and bool(e["exact"]) != exact:
+                    self.note("WannierData.from_npz:exactness_differs_from_model")
+                if ex is not None:
+                    if exact:
+                        self.rep.violation("WannierData.from_npz:exception", dict(info, step=step, exception=ex))
+                        ok = False
+                    elif following and e["err"] == "":
+                        self.note("WannierData.from_npz:fails_on_a_reused_seedname_where_the_model_loads")
+                    continue
+                try:
+                    lp = cont_project(loaded)
+                except ValueError as ve:
+                    self.rep.violation("WannierData.from_npz:projection", dict(info, step=step, problem=str(ve)))
                     ok = False
-                    break
-            if op == "from_npz" and ex is None:
-                lp = cont_project(loaded)
-                if lp != cont_canon(st["loaded"]):
-                    ep = cont_canon(st["loaded"])
-                    self.rep.violation(f"{site}:loaded_container", dict(info, step=n - 1, expected_keys=sorted(ep), got_keys=sorted(lp),
-                                                                        differing=[k for k in ep if k in lp and ep[k] != lp[k]]))
-                    ok = False
-                    break
-                if bool(loaded.irreducible) != bool(st["loaded"]["irreducible"]):
-                    self.rep.violation(f"{site}:irreducible_flag", dict(info, step=n - 1, expected=st["loaded"]["irreducible"], got=bool(loaded.irreducible)))
-                    ok = False
-                if e["exact"]:
-                    # the statement itself: every file of the loaded container compares equal to the original
-                    for k, v in w._files.items():
-                        eq = own_equals(k, v, loaded._files[k]) if k in loaded._files else False
+                    continue
+                if exact:
+                    if lp != cur:
+                        self.rep.violation("WannierData.from_npz:loaded_container",
+                                           dict(info, step=step, expected_keys=sorted(cur), got_keys=sorted(lp),
+                                                differing=[k for k in cur if k in lp and cur[k] != lp[k]]))
+                        ok = False
+                    lf = files_of(loaded)
+                    for k, v in files_of(w).items():
+                        eq = own_equals(k, v, lf[k]) if k in lf else False
                         if eq is not None and eq is not True:
-                            self.rep.violation(f"{site}:equals", dict(info, step=n - 1, file=k, equals_returned=eq))
+                            self.rep.violation("WannierData.from_npz:equals", dict(info, step=step, file=k, equals_returned=eq))
                             ok = False
-            if op == "write" and ex is None:
-                got = tokens(seedn + "." + e["key"], NCOMMENT[e["key"]])
-                if got != L(dict(st["texts"])[e["key"]]):
-                    self.rep.violation(f"{site}:file_tokens", dict(info, step=n - 1))
-                    ok = False
-        shutil.rmtree(d, ignore_errors=True)
+                elif following and e["err"] == "" and lp != cont_canon(st["loaded"]):
+                    self.note("WannierData.from_npz:reused_seedname_loads_other_files_than_the_model")
+                if following and e["err"] == "" and bool(getattr(loaded, "irreducible", False)) != bool(st["loaded"]["irreducible"]):
+                    self.note("WannierData.from_npz:irreducible_flag_differs_from_model")
+            else:   # write
+                key = e["key"]
+                keys = [key] if key else list(cur)
+                if key and key not in cur:
+                    continue
+                writable = all(k in ("eig", "amn") and set(cur[k]["dic"]["data"]) == set(range(cur[k]["dim"]["NK"])) for k in keys)
+                with serial_pools():
+                    _, ex = call(w.write, seedn, **(dict(files=[key]) if key else {}))
+                if ex is not None:
+                    if writable:
+                        site = f"{key.upper()}.to_w90_file" if key else "WannierData.write"
+                        self.rep.violation(f"{site}:exception", dict(info, step=step, via="WannierData.write", files=keys, exception=ex))
+                        ok = False
+                    continue
+                if not writable:
+                    self.note("WannierData.write:succeeds_where_the_model_fails")
+                    continue
+                for k in keys:
+                    # the statement: the matching reader turns the file back into the data of the container
+                    y, exr = real_read(k, seedn)
+                    gp = try_project(y, k)[0] if exr is None else None
+                    if gp is None or gp["dic"]["data"] != cur[k]["dic"]["data"] or gp["dim"] != cur[k]["dim"]:
+                        self.rep.violation("WannierData.write:roundtrip", dict(info, step=step, file=k, exception=exr))
+                        ok = False
+                    if following and key:
+                        got = try_tokens(seedn + "." + k, NCOMMENT[k])
+                        self.note("WannierData.write:tokens_as_modelled" if got == L(dict(st["texts"])[k]) else "WannierData.write:tokens_differ_from_model")
         return ok
 
 
@@ -525,7 +721,7 @@ def to_json_obj(o):
     return dict(cls=o["cls"], attr=o["attr"], dic=[[t, [[k, v] for k, v in sorted(d.items())]] for t, d in sorted(o["dic"].items())], dim=o["dim"])
 
 
-def random_obj(rng, cls, nk=None, nb=None, nnb=None):
+def random_obj(rng, cls, nk=None, nb=None, nnb=None, tags=False):
     nk = nk or rng.randint(1, 4)
     nb = nb or rng.randint(1, 4)
     nw = rng.randint(1, nb)
@@ -538,7 +734,12 @@ def random_obj(rng, cls, nk=None, nb=None, nnb=None):
     if cls == "eig":
         return dict(cls=cls, attr=dict(NK=nk), dic=dict(data={k: sorted(rng.randint(-80, 80) for _ in range(nb)) for k in ks}), dim=dict(NB=nb, NK=nk))
     if cls == "amn":
-        return dict(cls=cls, attr=dict(NK=nk), dic=dict(data={k: [[cv() for _ in range(nw)] for _ in range(nb)] for k in ks}), dim=dict(NB=nb, NW=nw, NK=nk))
+        attr = dict(NK=nk)
+        if tags:
+            attr.update(positions=[[rng.randint(-8, 8) for _ in range(3)] for _ in range(nw)], orbitals=[rng.choice(["s", "pz", "dxy"]) for _ in range(nw)],
+                        radial_nodes_list=[rng.randint(0, 2) for _ in range(nw)], basis_list=[[[8, 0, 0], [0, 8, 0], [0, 0, 8]] for _ in range(nw)],
+                        spread_list=[rng.randint(4, 16) for _ in range(nw)], spinor=False)
+        return dict(cls=cls, attr=attr, dic=dict(data={k: [[cv() for _ in range(nw)] for _ in range(nb)] for k in ks}), dim=dict(NB=nb, NW=nw, NK=nk))
     if cls == "mmn":
         return dict(cls=cls, attr=dict(NK=nk),
                     dic=dict(data={k: [[[cv() for _ in range(nb)] for _ in range(nb)] for _ in range(nnb)] for k in ks},
@@ -553,50 +754,82 @@ def random_obj(rng, cls, nk=None, nb=None, nnb=None):
     raise ValueError(cls)
 
 
-def record_calls(rep, rng, n, wd):
+def record_calls(rep, vio, rng, n, wd):
     recs, meta = [], []
     for it in range(n):
         cls = ("eig", "amn", "mmn")[it % 3]
         kind = ("write", "read", "npz")[(it // 3) % 3]
         small = rng.random() < 0.25
-        o = random_obj(rng, cls, nk=1 if small else None, nb=1 if small else None)
+        o = random_obj(rng, cls, nk=1 if small else None, nb=1 if small else None, tags=(kind == "npz" and rng.random() < 0.5))
         d = os.path.join(wd, f"r{it}")
         os.makedirs(d, exist_ok=True)
-        x = build(o)
-        bko = random_obj(rng, "bkvec", nk=o["dim"]["NK"], nnb=o["dim"].get("NNB", 2))
-        bk = build(bko)
-        rec = dict(kind=kind, cls=cls, obj=to_json_obj(o), bk=to_json_obj(bko))
-        m = dict(kind=kind, cls=cls, dims=o["dim"])
-        if kind == "write":
-            _, ex = call_writer(x, os.path.join(d, "w"), bk)
-            rec["out"] = dict(err=excname(ex)) if ex else dict(err="", lines=tokens(os.path.join(d, "w." + cls), NCOMMENT[cls]))
-            m["exception"] = ex
-        elif kind == "read":
-            # a file in the Wannier90 layout made from the object by the harness's own writer (independent of the specification)
-            lines = ref_lines(o, bko)
-            render(cls, lines, os.path.join(d, "r"))
-            y, ex = real_read(cls, os.path.join(d, "r"), bk)
-            rec.update(lines=lines, has_obj=True)
-            rec["out"] = dict(err=excname(ex)) if ex else dict(err="", obj=to_json_obj(project(y, cls)))
-            m["exception"] = ex
-        else:
-            path = os.path.join(d, f"x.{cls}.npz")
-            with quiet():
-                x.to_npz(path)
-            rec["names"] = [list(seg(nm)) for nm in np.load(path).files]
-            y, ex = call(classes()[cls].from_npz, path)
-            rec["out"] = dict(err=excname(ex)) if ex else dict(err="", obj=to_json_obj(project(y, cls)))
-            rec["equals_verdict"] = bool(ex is None and own_equals(cls, x, y) is True)
-            m["exception"] = ex
-        recs.append(rec)
-        meta.append(m)
-        rep.case(("rec", kind, cls, it))
-        shutil.rmtree(d, ignore_errors=True)
+        try:
+            x = build(o)
+            bko = random_obj(rng, "bkvec", nk=o["dim"]["NK"], nnb=o["dim"].get("NNB", 2))
+            bk = build(bko)
+            rec = dict(kind=kind, cls=cls, obj=to_json_obj(o), bk=to_json_obj(bko), has_perm=False, perm=[])
+            m = dict(kind=kind, cls=cls, dims=o["dim"])
+            if kind == "write":
+                _, ex = call_writer(x, os.path.join(d, "w"), bk)
+                if ex:
+                    rec["out"] = dict(err=excname(ex))
+                else:
+                    toks = try_tokens(os.path.join(d, "w." + cls), NCOMMENT[cls])
+                    rec["out"] = dict(err="", lines=toks if toks is not None else [])
+                    # the statement on the real file: the real reader gives the data back
+                    y, exr = real_read(cls, os.path.join(d, "w"), bk)
+                    gp = try_project(y, cls)[0] if exr is None else None
+                    if gp is None or gp["dic"]["data"] != o["dic"]["data"] or gp["dim"] != o["dim"]:
+                        vio.violation(f"{cls.upper()}.from_w90_file:roundtrip", dict(meta=m, exception=exr, what="random object written and read back"))
+                m["exception"] = ex
+            elif kind == "read":
+                # a file in the Wannier90 layout made from the object by the harness's own writer (independent of the specification);
+                # .mmn: the neighbours of every k-point in a seeded random order, as a Wannier90 run may list them
+                perm = None
+                if cls == "mmn":
+                    perm = {k: rng.sample(range(o["dim"]["NNB"]), o["dim"]["NNB"]) for k in range(o["dim"]["NK"])}
+                    rec.update(has_perm=True, perm=[perm[k] for k in range(o["dim"]["NK"])])
+                    m["permuted"] = any(perm[k] != sorted(perm[k]) for k in perm)
+                lines = ref_lines(o, bko, perm)
+                render(cls, lines, os.path.join(d, "r"))
+                y, ex = real_read(cls, os.path.join(d, "r"), bk)
+                rec.update(lines=lines, has_obj=True)
+                if ex:
+                    rec["out"] = dict(err=excname(ex))
+                else:
+                    gp, prob = try_project(y, cls)
+                    rec["out"] = dict(err="", obj=to_json_obj(gp)) if gp is not None else dict(err="projection")
+                m["exception"] = ex
+            else:
+                path = os.path.join(d, f"x.{cls}.npz")
+                _, wex = call(x.to_npz, path)
+                if wex:
+                    vio.violation(f"{cls}.to_npz:exception", dict(meta=m, exception=wex))
+                    continue
+                try:
+                    rec["names"] = [list(seg(nm)) for nm in np.load(path).files]
+                except Exception:
+                    rec["names"] = []
+                y, ex = call(classes()[cls].from_npz, path)
+                if ex:
+                    rec["out"] = dict(err=excname(ex))
+                else:
+                    gp, prob = try_project(y, cls)
+                    rec["out"] = dict(err="", obj=to_json_obj(gp)) if gp is not None else dict(err="projection")
+                rec["equals_verdict"] = bool(ex is None and own_equals(cls, x, y) is True)
+                m["exception"] = ex
+                m["tags"] = "orbitals" in o["attr"]
+            recs.append(rec)
+            meta.append(m)
+            rep.case(("rec", kind, cls, it))
+        finally:
+            shutil.rmtree(d, ignore_errors=True)
     return recs, meta
 
 
-def ref_lines(o, bko):
-    """token table of a Wannier90 text file for the object, written from the format's definition"""
+def ref_lines(o, bko, perm=None):
+    """token table of a Wannier90 text file for the object, written from the format's definition; perm[k][p] = index (in the
+    b-vector table) of the neighbour whose block is the p-th of k-point k"""
     cls, dat = o["cls"], o["dic"]["data"]
     nk = o["dim"]["NK"]
     if cls == "eig":
@@ -607,11 +840,106 @@ def ref_lines(o, bko):
     nb, nnb = o["dim"]["NB"], o["dim"]["NNB"]
     out = [[], [nb, nk, nnb]]
     for k in range(nk):
-        for j in range(nnb):
+        for p in range(nnb):
+            j = p if perm is None else perm[k][p]
             out.append([k + 1, bko["dic"]["neighbours"][k][j] + 1] + bko["dic"]["G"][k][j])
             for n in range(nb):
                 for m in range(nb):
                     out.append(list(dat[k][j][m][n]))      # M_mn(k, b): m runs fastest
+    return out
+
+
+# --------------------------------------------------------------------------- printed precision (numeric, deciding)
+TOL_F12 = 1e-11         # absolute: %17.12f keeps 12 decimals (half-ulp 5e-13)
+
+
+def precision_calls(vio, rng, n, wd):
+    """non-dyadic data through the text writers/readers (.eig, .amn) and through npz (all three)"""
+    C = classes()
+    obs = dict(cases=0, eig_abs=0.0, amn_abs=0.0, npz_bit_exact=0)
+    for it in range(n):
+        cls = ("eig", "amn", "mmn")[it % 3]
+        nk, nb = rng.randint(1, 3), rng.randint(1, 4)
+        nw, nnb = rng.randint(1, nb), rng.randint(2, 4)
+
+        def val():
+            return rng.choice([-1, 1]) * (1 + rng.random()) * 10.0 ** rng.uniform(-9, 3)
+
+        if cls == "eig":
+            data = {k: np.sort(np.array([val() for _ in range(nb)])) for k in range(nk)}
+        elif cls == "amn":
+            data = {k: np.array([[val() + 1j * val() for _ in range(nw)] for _ in range(nb)]) for k in range(nk)}
+        else:
+            data = {k: np.array([[[val() + 1j * val() for _ in range(nb)] for _ in range(nb)] for _ in range(nnb)]) for k in range(nk)}
+        m = dict(cls=cls, NK=nk, NB=nb, case=it, seed=seed())
+        d = os.path.join(wd, f"p{it}")
+        os.makedirs(d, exist_ok=True)
+        obs["cases"] += 1
+        try:
+            x, ex = call(C[cls], data={k: v.copy() for k, v in data.items()}, NK=nk)
+            if ex:
+                vio.violation(f"{cls}.__init__:exception", dict(meta=m, exception=ex))
+                continue
+            if cls in ("eig", "amn"):
+                _, ex = call(x.to_w90_file, os.path.join(d, "w"))
+                if ex:
+                    vio.violation(f"{cls.upper()}.to_w90_file:exception", dict(meta=m, exception=ex, numbers="non-dyadic"))
+                else:
+                    y, ex = real_read(cls, os.path.join(d, "w"))
+                    if ex:
+                        vio.violation(f"{cls.upper()}.from_w90_file:exception", dict(meta=m, exception=ex, numbers="non-dyadic"))
+                    else:
+                        dev = 0.0
+                        for k in data:
+                            b = np.asarray(y.data[k]) if k in y.data else None
+                            dev = max(dev, float(np.max(np.abs(b - data[k]))) if b is not None and b.shape == data[k].shape else float("inf"))
+                        obs[cls + "_abs"] = max(obs[cls + "_abs"], dev)
+                        if dev > TOL_F12:
+                            vio.violation(f"{cls.upper()}.to_w90_file:precision", dict(meta=m, deviation=dev, tolerance=TOL_F12,
+                                                                                      what="absolute deviation after to_w90_file / from_w90_file"))
+            path = os.path.join(d, f"x.{cls}.npz")
+            _, ex = call(x.to_npz, path)
+            if ex:
+                vio.violation(f"{cls}.to_npz:exception", dict(meta=m, exception=ex, numbers="non-dyadic"))
+                continue
+            y, ex = call(C[cls].from_npz, path)
+            if ex:
+                vio.violation(f"{cls}.from_npz:exception", dict(meta=m, exception=ex, numbers="non-dyadic"))
+                continue
+            same = set(y.data) == set(data) and all(np.array_equal(np.asarray(y.data[k]), data[k]) for k in data) and int(y.NK) == nk
+            eq = own_equals(cls, x, y)
+            if not same or (eq is not None and eq is not True):
+                vio.violation(f"{cls}.from_npz:precision", dict(meta=m, bit_exact=same, equals_returned=eq))
+            else:
+                obs["npz_bit_exact"] += 1
+        finally:
+            shutil.rmtree(d, ignore_errors=True)
+    return obs
+
+
+def optional_tag_none_observation(wd):
+    """AMN(..., spread_list=[None]) through npz: a list with None becomes an object array, which np.load refuses without pickle.
+    No path of the package produces such a list (Projection.spread_factor is a float), so this is reported, not claimed."""
+    d = os.path.join(wd, "none_tag")
+    os.makedirs(d, exist_ok=True)
+    out = dict(key="amn.from_npz:optional_tag_with_None",
+               reproduction="AMN(data={0: np.ones((2,1),complex)}, NK=1, spread_list=[None]).to_npz('a.amn.npz'); AMN.from_npz('a.amn.npz')")
+    try:
+        A = classes()["amn"]
+        a, ex = call(A, data={0: np.ones((2, 1), dtype=complex)}, NK=1, spread_list=[None])
+        if ex:
+            out["result"] = "constructor raises " + ex
+            return out
+        _, ex = call(a.to_npz, os.path.join(d, "a.amn.npz"))
+        if ex:
+            out["result"] = "to_npz raises " + ex
+            return out
+        _, ex = call(A.from_npz, os.path.join(d, "a.amn.npz"))
+        out["result"] = "round trip ok" if ex is None else "from_npz raises " + ex
+    except Exception as ex:
+        out["result"] = f"observation failed: {type(ex).__name__}: {ex}"[:200]
+    finally:
+        shutil.rmtree(d, ignore_errors=True)
     return out
 
 
@@ -623,6 +951,16 @@ def cfg(spec, consts, invs, sw=FIXED):
 
 
 ALLCLS = '{"eig", "amn", "mmn", "bkvec", "chk", "spn", "uhu", "uiu", "shu", "siu"}'
+
+
+def enum_states(module, cfg_text, name, timeout):
+    """ftable.enumerate_states without the coverage statistics (they double the CPU time; non-vacuity is counted on the dump)"""
+    st = tlc.run_tlc(module, cfg_text, name, workers=4, dump=True, coverage=False, timeout=timeout)
+    if st.get("timeout"):
+        raise MachineryError(f"TLC timed out on {name}")
+    if st.get("error") and not st.get("violation"):
+        raise MachineryError(f"TLC error on {name}: {st['error'][:600]}")
+    return st
 
 
 def drop_dump(st):
@@ -647,56 +985,93 @@ class Capped:
 
 def check(pid, tier):
     rep = Report(pid, tier, "model_checking")
+    try:
+        return _check(rep, pid, tier)
+    except Exception:
+        # never lose what has been found: write the violations out before the machinery problem is reported
+        if rep.violations:
+            try:
+                rep.part("aborted", note="the run stopped early; the violations collected so far are reported")
+                rep.finish()
+            except Exception:
+                pass
+        raise
+
+
+def _check(rep, pid, tier):
     vio = Capped(rep)
     thorough = tier == "thorough"
     rng = random.Random(seed() * 7919 + 19)
     import wannierberri  # noqa: F401
-    wd = workdir("c19")
-    rep.rule("TLC enumerates every file object inside (NK, NB, NW, NNB, k-point subsets, patterns) and every sequence of container "
-             "actions up to MAXLEN; a case = one such state/behaviour executed on the real classes (exact comparison of tokens, npz "
-             "entry names, tables, container contents) or one seeded random recorded call validated by TLC")
-    rep.assume("data are multiples of 1/8, exactly printed by the text formats")
+    tag = f"{pid.lower()}_{tier}_{os.getpid()}"
+    wd = workdir(tag)
+    tlc_names = []
+    timing = {}
+    t_last = [cpu()]
+
+    def lap(name):
+        now = cpu()
+        timing[name] = round(now - t_last[0], 1)
+        t_last[0] = now
+
+    def tname(n):
+        tlc_names.append(f"{tag}_{n}")
+        return tlc_names[-1]
+
+    rep.rule("TLC enumerates every file object inside (NK, NB, NW, NNB, k-point subsets, patterns, optional tags) and every sequence of "
+             "container actions up to MAXLEN; a case = one file-object state executed on the real classes, one container behaviour "
+             "executed on a real WannierData (every behaviour that saves or loads, a seeded sample of the others), one seeded random "
+             "recorded call validated by TLC, or one seeded random non-dyadic object")
+    rep.assume("exact part: data are multiples of 1/8, exactly printed by the text formats; printed precision is the business of the numeric part `precision`")
     rep.assume("the b-vector table needed by .mmn files is a (NK,1,1) mesh with the first NNB axis neighbours")
 
     # ---------------- file objects
-    fconst = dict(CLS=ALLCLS, NKS="{1, 2, 3}", NBS="{1, 2, 3}", NNBS="{2, 3, 4, 5, 6}", PATS="{1, 2}" if thorough else "{1}")
+    fconst = dict(CLS=ALLCLS, NKS="{1, 2, 3}", NBS="{1, 2, 3}", NNBS="{2, 3, 4, 5, 6}" if thorough else "{2, 3, 6}", PATS="{1, 2}" if thorough else "{1}")
     finv = ["TextRoundTrip", "WriterNeedsAllK", "NpzRoundTrip", "NpzKeys"]
-    st = ftable.enumerate_states("MC_W90Files.tla", cfg("FSpec", fconst, finv), "c19_files", timeout=1800)
+    st = enum_states("MC_W90Files.tla", cfg("FSpec", fconst, finv), tname("files"), 1800)
     ftable.spec_violation(rep, st, "c19_files")
     rep.add_tlc("c19_files", st)
+    lap("tlc_files")
     fr = FileReplay(vio, wd)
-    for s in ftable.dump_states(st):
+    fstates = sorted(ftable.dump_states(st), key=lambda s: repr(tuple(s["par"])))
+    drop_dump(st)
+    for s in fstates:
         p = s["par"]
         rep.case(("file",) + tuple(p))
         fr.one(s)
         if fr.n <= 2:
             rep.sample(dict(cls=p[0], NK=p[1], NB=p[2], NW=p[3], NNB=p[4], partial_k=p[5]))
-    drop_dump(st)
-    if fr.n != st["distinct"] or set(fr.count) != set(classes()):
+    if fr.n != st["distinct"] or set(fr.count) != set(SPEC_TAGS):
         raise MachineryError(f"file-object dump incomplete: {fr.n} of {st['distinct']}, classes {sorted(fr.count)}")
-    rep.part("replay_files", states=fr.n, per_class=fr.count, **fr.obs,
-             note="*_when_patched: observation with array data (EIG, AMN) / neighbours and G (MMN) supplied from outside, so that the "
-                  "rest of the writer can be compared with the specification's token table")
+    cannot = sum(v for k, v in fr.obs.items() if k.endswith("cannot_build_the_specification_object"))
+    if cannot > fr.n // 2 and not rep.violations:
+        raise MachineryError(f"the harness cannot build {cannot} of {fr.n} specification objects on this tree")
+    rep.part("replay_files", states=fr.n, per_class=fr.count)
+    lap("replay_files")
 
-    # ---------------- sensitivity: the model of the code as read must violate the property
-    sa = tlc.run_tlc("MC_W90Files.tla", cfg("FSpec", dict(fconst, NNBS="{2}", PATS="{1}"), ["TextRoundTrip"], sw=ASIS), "c19_asis", workers=4, timeout=900)
+    # ---------------- sensitivity: the model of the defects (the .mmn writer as it is, the former .eig/.amn defects) must violate the property
+    sa = tlc.run_tlc("MC_W90Files.tla", cfg("FSpec", dict(fconst, NNBS="{2}", PATS="{1}"), ["TextRoundTrip"], sw=ASIS), tname("asis"), workers=4, timeout=900)
     if not sa.get("violation"):
-        raise MachineryError("sensitivity self-test failed: the model of the writers as read (tuple key on a dict, neighbours of self) must violate TextRoundTrip")
-    rep.part("c19_asis", sensitivity_violation=sa["violation"][1], constants=ASIS)
-    sb = tlc.run_tlc("MC_W90Files.tla", cfg("FSpec", dict(fconst, CLS='{"eig"}', NNBS="{2}", PATS="{1}"), ["TextRoundTrip"],
-                                            sw=dict(FIXED, LoadtxtSqueeze="TRUE")), "c19_loadtxt", workers=4, timeout=900)
-    if not sb.get("violation"):
-        raise MachineryError("sensitivity self-test failed: a 1-d loadtxt result for a one-line .eig file must violate TextRoundTrip")
-    rep.part("c19_loadtxt", sensitivity_violation=sb["violation"][1])
+        raise MachineryError("sensitivity self-test failed: the model of the defective writers (tuple key on a dict, neighbours of self) must violate TextRoundTrip")
+    rep.part("c19_defects", sensitivity_violation=sa["violation"][1], constants=ASIS,
+             note="MmnWriterBkvec=FALSE is mmn.py as it is (known finding); WriterIndexing=tuple and LoadtxtSqueeze=TRUE are the defects repaired in 4825d857")
+    if thorough:
+        sb = tlc.run_tlc("MC_W90Files.tla", cfg("FSpec", dict(fconst, CLS='{"eig"}', NNBS="{2}", PATS="{1}"), ["TextRoundTrip"],
+                                                sw=dict(FIXED, LoadtxtSqueeze="TRUE")), tname("loadtxt"), workers=4, timeout=900)
+        if not sb.get("violation"):
+            raise MachineryError("sensitivity self-test failed: a 1-d loadtxt result for a one-line .eig file must violate TextRoundTrip")
+        rep.part("c19_loadtxt", sensitivity_violation=sb["violation"][1])
+    lap("sensitivity")
 
     # ---------------- container
     cconst = dict(CLS='{"eig"}', NKS="{1}", NBS="{1}", NNBS="{2}", PATS="{1}", MAXLEN=3 if thorough else 2,
-                  POOL='{"eig", "eigB3", "eigK3", "eigP", "amnW2", "mmnN4", "chk", "spn"}' if not thorough
-                  else '{"eig", "eigB3", "eigP", "amnW2", "mmnN4", "chk"}', PRESETS="{0, 1, 2, 3, 4}")
+                  POOL='{"eig", "eigB3", "eigP", "amnW2", "chk", "uhu", "siu"}' if not thorough
+                  else '{"eig", "eigP", "amnW2", "chk", "uiu", "shu", "spn"}', PRESETS="{0, 1, 2, 3, 4}")
     cinv = ["ContRoundTrip", "ContConsistent", "ChkFollowsAmn", "WriteReadable"]
-    stc = ftable.enumerate_states("MC_W90Cont.tla", cfg("CSpec", cconst, cinv), "c19_cont", timeout=2400)
+    stc = enum_states("MC_W90Cont.tla", cfg("CSpec", cconst, cinv), tname("cont"), 2400)
     ftable.spec_violation(rep, stc, "c19_cont")
     rep.add_tlc("c19_cont", stc)
+    lap("tlc_cont")
     states, leaves = {}, []
     maxlen = cconst["MAXLEN"]
     for s in ftable.dump_states(stc):
@@ -707,12 +1082,15 @@ def check(pid, tier):
     if len(states) != stc["distinct"]:
         raise MachineryError("container dump: behaviours are not distinct states")
     pool = collect_pool(states)
-    nmax = 6000 if thorough else 1500
+    nmax = 6000 if thorough else 700
+    nleaves = len(leaves)
+    leaves.sort(key=lambda s: repr(ContReplay.hkey(s["hist"])))          # the dump order of TLC is not deterministic
     if len(leaves) > nmax:
-        # every behaviour that saves or loads, a seeded sample of the others
+        # every behaviour that saves, loads or writes, a seeded sample of the others
         rng.shuffle(leaves)
-        leaves.sort(key=lambda s: 0 if any(e["op"] in ("to_npz", "from_npz") for e in s["hist"]) else 1)
-        leaves = leaves[:nmax]
+        leaves.sort(key=lambda s: 0 if any(e["op"] in ("to_npz", "from_npz", "write") for e in s["hist"]) else 1)
+        must = sum(1 for s in leaves if any(e["op"] in ("to_npz", "from_npz", "write") for e in s["hist"]))
+        leaves = leaves[:max(nmax, must)]
     cr = ContReplay(vio, wd, states)
     followed = 0
     rt = 0
@@ -726,46 +1104,91 @@ def check(pid, tier):
             raise MachineryError(f"container action never replayed: {op}")
     if rt == 0:
         raise MachineryError("no to_npz/from_npz round trip among the replayed behaviours")
-    rep.part("replay_container", behaviours=len(leaves), followed_specification=followed, actions=cr.ops, exact_round_trips=rt)
+    rep.part("replay_container", behaviours=len(leaves), of_leaf_behaviours=nleaves, did_what_the_statement_says=followed, actions=cr.ops, exact_round_trips=rt)
     rep.sample(dict(container_behaviour=[(e["op"], e["key"], e["id"]) for e in leaves[0]["hist"]]))
+    lap("replay_container")
 
     # ---------------- code -> spec: recorded calls
-    nrec = 900 if thorough else 180
-    recs, meta = record_calls(rep, rng, nrec, wd)
-    # binding self-test inside the same batch: a corrupted copy of an accepted npz record must be rejected
-    cand = [i for i, r in enumerate(recs) if r["kind"] == "npz" and r["out"]["err"] == ""]
-    if not cand:
-        raise MachineryError("no successful npz record for the binding self-test")
-    br = copy.deepcopy(recs[cand[0]])
-    t = br["out"]["obj"]["dic"][0][1][0][1]
-    while isinstance(t[0], list):
-        t = t[0]
-    t[0] += 1
-    stv, bad = ftable.validate_records("W90StoreRec.tla", cfg("RecSpec", {}, ["Report"]), recs + [br], "c19", chunk=400)
+    nrec = 900 if thorough else 108
+    recs, meta = record_calls(rep, vio, rng, nrec, wd)
+    lap("records_real")
+    # binding self-test inside the same batch: corrupted copies of npz records the real code completed; the copy of a record
+    # TLC accepts must be rejected
+    cand = [i for i, r in enumerate(recs) if r["kind"] == "npz" and r["out"]["err"] == ""][:4]
+    corrupted = []
+    for i in cand:
+        br = copy.deepcopy(recs[i])
+        t = br["out"]["obj"]["dic"][0][1][0][1]
+        while isinstance(t[0], list):
+            t = t[0]
+        t[0] += 1
+        corrupted.append(br)
+    stv, bad = ftable.validate_records("W90StoreRec.tla", cfg("RecSpec", {}, ["Report"]), recs + corrupted, tname("rec"), chunk=400)
     rep.add_tlc("c19_records", stv)
     rep.add_traces(len(recs))
-    if len(recs) not in bad:
-        raise MachineryError("binding self-test failed: corrupted npz record accepted")
-    if cand[0] in bad:
-        raise MachineryError(f"binding self-test inconclusive: the uncorrupted record is rejected too ({bad[cand[0]]})")
-    rep.part("binding_selftest", corrupted_record_rejected=bad.pop(len(recs)))
-    for i, clauses in bad.items():
+    bad_corrupted = {j: bad.pop(len(recs) + j, []) for j in range(len(corrupted))}
+    usable = [j for j, i in enumerate(cand) if not [c for c in bad.get(i, []) if c not in INFO_CLAUSES]]
+    if usable:
+        j = usable[0]
+        if not [c for c in bad_corrupted[j] if c not in INFO_CLAUSES]:
+            raise MachineryError("binding self-test failed: corrupted npz record accepted")
+        rep.part("binding_selftest", corrupted_record_rejected=bad_corrupted[j])
+    elif not cand and not rep.violations:
+        raise MachineryError("no successful npz record for the binding self-test")
+    else:
+        rep.part("binding_selftest", skipped="TLC rejects every candidate record itself (see the violations)")
+    conf = {}
+    for i, clauses in sorted(bad.items()):
         m = meta[i]
+        for c in clauses:
+            if c in INFO_CLAUSES:
+                conf[c] = conf.get(c, 0) + 1
+        clauses = [c for c in clauses if c not in INFO_CLAUSES]
+        if not clauses:
+            continue
         C = m["cls"].upper()
         if m["kind"] == "write":
-            key = f"{C}.to_w90_file:{excname(m['exception'])}" if m["exception"] else f"{C}.to_w90_file:recorded"
+            key = f"{C}.to_w90_file:exception" if m["exception"] else f"{C}.to_w90_file:recorded"
         elif m["kind"] == "read":
-            sub = ":single_value_file" if m["cls"] == "eig" and m["dims"]["NK"] * m["dims"]["NB"] == 1 else ""
-            key = f"{C}.from_w90_file:{excname(m['exception'])}{sub}" if m["exception"] else f"{C}.from_w90_file:recorded"
+            key = f"{C}.from_w90_file:exception" if m["exception"] else f"{C}.from_w90_file:recorded"
         else:
             key = f"{m['cls']}.from_npz:recorded"
         vio.violation(key, dict(meta=m, failing_clauses=clauses))
+    rep.part("model_conformance", records=len(recs), information_only=True, records_where_the_code_differs_from_the_model=conf,
+             note="layout: tokens of the written file vs the model's table; reader_model: result of the real reader vs the model's reader; "
+                  "names/from_dict: names of the entries inside the .npz and the model's from_dict on them")
     kinds = {(m["kind"], m["cls"]) for m in meta}
-    if len(kinds) != 9:
+    if len(kinds) != 9 and not rep.violations:
         raise MachineryError(f"record classes missing: {sorted(kinds)}")
+    if not any(m.get("permuted") for m in meta) or not any(m.get("tags") for m in meta):
+        raise MachineryError("no .mmn read record with permuted neighbours / no .amn npz record with optional tags")
     rep.sample(dict(record=meta[0]))
+    lap("records_tlc")
+
+    # ---------------- printed precision: non-dyadic data (numeric, deciding at the precision of the formats)
+    pobs = precision_calls(vio, rng, 240 if thorough else 45, wd)
+    for i in range(pobs["cases"]):
+        rep.case(("precision", i))
+    rep.part("precision", numeric_only=True, **pobs, tolerance=dict(eig_amn_absolute=TOL_F12, npz="bit-exact"),
+             note="deviations are rounding of %17.12f (deterministic bound 5e-13), not noise; .mmn text files cannot be written by the code (known finding)")
+    rep.part("amn_optional_tag_none", information_only=True, **optional_tag_none_observation(wd))
+    lap("precision")
+
+    rep.part("information", information_only=True, replay_files=fr.obs, replay_container=cr.info,
+             note="counts of agreements/differences that are not part of the statement: tokens of the written files, names of the npz "
+                  "entries, what the container accepts/refuses and its state after that, exception classes, behaviour on a re-used "
+                  "seedname; mmn_writer_patched: the .mmn writer with neighbours and G supplied from outside")
+    if SKIPPED:
+        rep.part("skipped_private", **{k.replace(".", "_"): v for k, v in SKIPPED.items()})
     rep.part("violation_counts", **{k.replace(".", "_").replace(":", "_"): v for k, v in vio.count.items()})
+    rep.part("cpu_seconds", **timing, total=round(sum(timing.values()), 1))
     shutil.rmtree(wd, ignore_errors=True)
+    if not rep.violations:
+        for n in tlc_names:
+            shutil.rmtree(os.path.join(WORK, "tlc", n), ignore_errors=True)
+            for c0 in range(0, 2000, 400):
+                shutil.rmtree(os.path.join(WORK, "tlc", f"rec_{n}_{c0}"), ignore_errors=True)
+            shutil.rmtree(os.path.join(WORK, "records", n), ignore_errors=True)
     return rep.finish()
 
 
